@@ -5,16 +5,11 @@ From Scalibr Require Import Convert.Bytes Convert.Generated_PurlTypes Convert.Pu
 Import ListNotations.
 
 (* ---------------------------------------------------------------- accepted purl types *)
-(* The full statement "every purl type a built-in extractor references is accepted by purl.validType"
-   (tables regenerated from the Go sources on every run) is FALSE on the current tree: *)
-Theorem emitted_types_valid_refuted : exists t, In t emitted_types /\ valid_type t = false.
-Proof. exact emitted_types_valid_refuted_lemma. Qed.
-Print Assumptions emitted_types_valid_refuted.
-
-(* ... and holds for every emitted type other than the known offender (in_D_type excludes exactly `snap`) *)
-Theorem emitted_types_valid_on_D : forall t, In t emitted_types -> in_D_type t = true -> valid_type t = true.
-Proof. exact emitted_types_valid_on_D_lemma. Qed.
-Print Assumptions emitted_types_valid_on_D.
+(* every purl type a built-in extractor references is accepted by purl.validType (both tables regenerated from
+   the Go sources on every run; full strength since `fix: purl.validType accepts snap`) *)
+Theorem emitted_types_valid : forall t, In t emitted_types -> valid_type t = true.
+Proof. exact emitted_types_valid_lemma. Qed.
+Print Assumptions emitted_types_valid.
 
 Theorem valid_type_case_insensitive : forall t, valid_type (to_lower t) = valid_type t.
 Proof. exact valid_type_lower. Qed.
